@@ -225,6 +225,8 @@ def arch_label(case):
         lab.append("large(beyond-box)")
     if case.get("ph_aux_nonzero"):
         lab.append("phase_aux_bias!=0")
+    if case.get("polarised"):
+        lab.append("polarised(|b|>=12)")
     return lab
 
 
